@@ -67,7 +67,7 @@ def make_chooser(sched):
         return ReplayChooser(sched["picks"], sched.get("perms"))
     rng = random.Random("sched/%s/%s" % (sched.get("policy"), sched.get("seed", 0)))
     return PolicyChooser(rng, sched.get("policy", "random"), pct_d=sched.get("pct_d", 2),
-                         horizon=sched.get("horizon", 400))
+                         horizon=sched.get("horizon", 400), starve=sched.get("starve"))
 
 
 def sim_isoquant(argv, rundir, outdir, indir, sched=None, fault=None, bufsize=8192, chroms=(), prefixes=(),
@@ -122,3 +122,39 @@ def event_labels(trace):
 def placement_key(maps):
     """canonical form of task placement: per map, sorted list of per-worker ordered task lists"""
     return json.dumps([[m["fn"], sorted(m["placement"].values())] for m in maps])
+
+
+def sim_multi(actors, rundir, home, sched=None, mtimes=None, dirs=(), shared=None, wall_cap=120.0, step_cap=100000,
+              on_event=None, fault=None):
+    """several complete IsoQuant invocations (each --threads 1) as concurrent actors under one hub.
+    actors: [{"argv": [...], "log": name}].  Returns dict with exit_codes, trace, picks, probes, mtimes."""
+    become_subreaper()
+    os.makedirs(home, exist_ok=True)
+    cfg = os.path.join(home, ".config", "IsoQuant")
+    shared = list(shared) if shared is not None else [cfg, ".db"]
+    templ = Templater(list(dirs) + [(home, "<home>")])
+    chooser = make_chooser(sched)
+    hub = Hub(chooser, fault=fault, templ=templ, step_cap=step_cap, wall_cap=wall_cap, mtimes=mtimes,
+              nslots=max(2, len(actors)))
+    hub.on_event = on_event
+    sys.stdout.flush(); sys.stderr.flush()
+    for i, a in enumerate(actors):
+        pid = os.fork()
+        if pid == 0:
+            _actor_body(hub, i, a["argv"], home, rundir, os.path.join(rundir, a.get("log", "actor%d.log" % i)), (),
+                        a.get("bufsize", 8192), shared=shared, logical_mtime=True, results_dir=rundir)
+        hub.register(i, pid, "actor%d" % i if len(actors) > 1 else "actor")
+    hub.close_actor_side()
+    err = None
+    res = {}
+    try:
+        res = hub.run(tuple(range(len(actors))))
+    except HarnessError as e:
+        hub.kill_all()
+        err = str(e)
+    finally:
+        hub.close()
+    res.update(trace=hub.trace, picks=list(chooser.picks), events=hub.ev_seq, harness_error=err, steps=hub.steps,
+               probes=dict(hub.probes), mtimes=hub.mtimes, crashed=hub.crashed)
+    res.setdefault("exit_codes", {})
+    return res
